@@ -190,7 +190,9 @@ def case_strategy():
     def build(draw):
         k = draw(st.integers(2, 3))
         style = draw(st.sampled_from(["fresh", "shared-base"]))
-        timeouts = [draw(st.sampled_from([{"hours": 1}, {"minutes": 5}, {"seconds": 30}, {"milliseconds": 500}])) for _ in range(k)]
+        full = lambda **kw: dict({"weeks": 0, "days": 0, "hours": 0, "minutes": 0, "seconds": 0, "milliseconds": 0, "microseconds": 0}, **kw)
+        timeouts = [draw(st.sampled_from([{"hours": 1}, {"minutes": 5}, {"seconds": 30}, {"milliseconds": 500},
+                                          full(hours=1), full(minutes=5), full(seconds=30), full(milliseconds=500), full(days=1)])) for _ in range(k)]
 
         def settings():
             w = draw(st.sampled_from(["none", "c", "p", "cp", "c"]))
